@@ -113,6 +113,13 @@ class C04(Prop):
                         for e in '01':
                             lines.append('q a closure %s %s %s' % (name, r, e))
                             lines.append('q a partof %s %s %s' % (name, r, e))
+            # a basis that names a point twice (the lookups compare *sets* of points of exactly that many elements)
+            pts_ = sorted(set(p for s in cx for p in s))
+            for _ in range(2):
+                p_ = rnd.choice(pts_); q_ = rnd.choice(pts_)
+                dup = rnd.choice([[p_, p_], [p_, p_, q_], [p_, q_, p_], [q_, p_, p_, q_]])
+                lines.append('q a withbasis %s' % list_s([pname(x) for x in dup]))
+                lines.append('q a containsbasis %s' % list_s([pname(x) for x in dup]))
             if route == 'faces':
                 names = [tok(nm[s]) if len(s) > 1 else tok(pname(s[0])) for s in cx]
                 for _ in range(4):
@@ -363,6 +370,18 @@ class C08(Prop):
                 if line.startswith('copy '): line += ' ?'
                 if line.startswith('compose') and v == u: continue
                 lines += ['check save-all', line, 'check unchanged-all']
+            if i % 3 == 0:
+                # operands that share simplices, with dictionary- and list-valued attributes under the same keys
+                # on both sides: composing must leave both operands' values (and what they contain) alone
+                lines += ['copy t a ?']
+                pts_a = [l.split()[4] for l in lines if l.startswith('add a [ ]') and l.split()[4] != '-'][:4]
+                for p_ in pts_a:
+                    for v_ in ('a', 't'):
+                        if rnd.random() < 0.8:
+                            val = rnd.choice([{'p': rnd.randint(0, 3)}, {'q': [rnd.randint(0, 3)], 'r': {'s': 1}}, [rnd.randint(0, 3)]])
+                            lines.append('setattr %s %s %s %s' % (v_, p_, rnd.choice(['snest', 'sheight']), impl.aval_tok(val)))
+                lines += ['check save-all', 'compose nt a t', 'check unchanged-all',
+                          'check save-all', 'compose nu t a', 'check unchanged-all']
             # an embedding and its Vietoris-Rips complex
             lines += ['emb e a 2']
             pts = [l.split()[4] for l in lines if l.startswith('add a [ ]') and l.split()[4] != '-'][:4]
@@ -704,6 +723,10 @@ class C16(Prop):
                 for l in ls:
                     if l.startswith('add ') and rnd.random() < 0.3:
                         lines.append('setattr %s %s %s i%d' % (v, l.split()[-2], rnd.choice(['sx', 'sy']), rnd.randint(0, 9)))
+                    elif l.startswith('add ') and rnd.random() < 0.35:
+                        # values that are themselves dictionaries / lists (the merge replaces a value, it never blends two)
+                        val = rnd.choice([{'p': rnd.randint(0, 3)}, {'q': [rnd.randint(0, 3)], 'r': {'s': 1}}, [rnd.randint(0, 3)]])
+                        lines.append('setattr %s %s %s %s' % (v, l.split()[-2], rnd.choice(['sx', 'sn']), impl.aval_tok(val)))
             if pi % 10 == 9:
                 # a target that holds nothing (yet / any more)
                 pre = ['new d'] if pi % 20 == 9 else ['new d', 'add d [ ] sGONE -', 'del d sGONE']
